@@ -1811,6 +1811,20 @@ class Engine:
                 return self.apply_contract(con, fn, args, kwargs)
         if isinstance(fn, type) and issubclass(fn, BaseException):
             return ExcV(fn, args[0] if args else None)
+        if isinstance(fn, type):
+            ckey = f"{fn.__module__}:{fn.__qualname__}"
+            ccon = REGISTRY.get(ckey)
+            if ccon is not None and ccon.call is not None:
+                init = fn.__init__
+                try:
+                    ba = inspect.signature(init).bind(None, *args, **kwargs)
+                except TypeError as ex:
+                    raise PyRaise(TypeError, str(ex))
+                ba.apply_defaults()
+                vals = dict(ba.arguments)
+                vals.pop("self", None)
+                vals = {k: self.force(v) for k, v in vals.items()}
+                return ccon.call(self, ccon, vals, self.call_site_id(getattr(self, "cur_call_node", None), ckey))
         if not any(is_symbolic(a) for a in args) and not any(is_symbolic(a) for a in kwargs.values()):
             if BM.native_ok(fn):
                 try:
